@@ -21,7 +21,8 @@ CLAIMS['C16'] = {
              'kept one, and candidates are tried in descending order; searchBest_fallback: the tree search of the model is '
              'exactly "remember scan candidates in that buffer, then access them best first" (perfect matches are accessed '
              'immediately by construction). Model tied to util.rs/trees.rs by bounded-exhaustive + random differential runs.'
-             ' Theorem sorted_buffer_add_matches_source: the array code of SortedBuffer::add (the two position searches, rotate_right(1)/rotate_left(1) of the sub-slices, the element assignments) is regenerated from core/src/util.rs on every run by the translator (Gen/Sbuf.lean) and proved to compute, on every buffer reachable from SortedBuffer::new(), exactly the list operation of the model (Proofs/GenSbuf.lean).'),
+             ' Theorem sorted_buffer_add_matches_source: the array code of SortedBuffer::add (the two position searches, rotate_right(1)/rotate_left(1) of the sub-slices, the element assignments) is regenerated from core/src/util.rs on every run by the translator (Gen/Sbuf.lean) and proved to compute, on every buffer reachable from SortedBuffer::new(), exactly the list operation of the model (Proofs/GenSbuf.lean).'
+             ' Theorem search_index_matches_source: the candidate index of Trees::search / Trees::search_best (alternating after and before the start tree) is regenerated from core/src/trees.rs on every run (Gen/Idx.lean) and equals searchIdx of the model.'),
     'note': TB,
     'technique': 'Lean 4 invariant proof by induction over insertion sequences + characterisation theorem of the search; unit differential vs the compiled SortedBuffer/search_best',
 }
